@@ -189,3 +189,63 @@ package keeper
 //@ func Keeper.GetSlashMeterAllowance
 //@ ensures [ge1] dec_of_str(k.GetSlashMeterReplenishFraction(ctx)) >= 0 && k.stakingKeeper.GetLastTotalPower(ctx).0 >= 0 ==> result >= 1
 //@ ensures [pure] S == old(S) && E == old(E) && X == old(X)
+
+// ---------------------------------------------------------------- C07: equivocation evidence
+
+//@ func Keeper.VerifyDoubleVotingEvidence
+//@ let A := evidence.VoteA
+//@ let B := evidence.VoteB
+//@ requires evidence.VoteA != nil && evidence.VoteB != nil
+//@ let valid := pubkey != nil && pubkey.Address() == A.ValidatorAddress && A.Height == B.Height && A.Round == B.Round && A.Type == B.Type && A.ValidatorAddress == B.ValidatorAddress && !A.BlockID.Equals(B.BlockID) && pubkey.VerifySignature(tmtypes.VoteSignBytes(chainId, A.ToProto()), A.Signature) && pubkey.VerifySignature(tmtypes.VoteSignBytes(chainId, B.ToProto()), B.Signature)
+//@ ensures [sound] result == nil ==> valid
+//@ ensures [complete] valid ==> result == nil
+
+//@ func Keeper.ComputePowerToSlash pure
+//@ ensures [frame] S == old(S) && E == old(E) && X == old(X)
+
+//@ func Keeper.SlashValidator
+//@ let a := providerAddr.ToSdkConsAddr()
+//@ let v := old(k.stakingKeeper.GetValidatorByConsAddr(ctx, a))
+//@ requires slashingParams != nil
+//@ ensures [guards] v.1 != nil || v.0.IsUnbonded() || old(k.slashingKeeper.IsTombstoned(ctx, a)) ==> result != nil && E == old(E) && X == old(X)
+//@ ensures [store] S == old(S)
+//@ ensures [who] E == old(E) || (exists pw int :: E == elog(old(E), eff_StakingKeeper_SlashWithInfractionReason(v.0.GetConsAddr().0, 0, pw, slashingParams.SlashFraction, stakingtypes.Infraction_INFRACTION_DOUBLE_SIGN)))
+//@ ensures [ok-slashed] result == nil ==> E != old(E)
+
+//@ func Keeper.JailAndTombstoneValidator
+//@ let a := providerAddr.ToSdkConsAddr()
+//@ let v := old(k.stakingKeeper.GetValidatorByConsAddr(ctx, a))
+//@ requires jailingParams != nil
+//@ let e1 := (v.0.IsJailed() ? old(E) : elog(old(E), eff_StakingKeeper_Jail(a)))
+//@ let e2 := elog(e1, eff_SlashingKeeper_JailUntil(a, now + jailingParams.JailDuration))
+//@ let e3 := (jailingParams.Tombstone ? elog(e2, eff_SlashingKeeper_Tombstone(a)) : e2)
+//@ ensures [guards] v.1 != nil || v.0.IsUnbonded() || old(k.slashingKeeper.IsTombstoned(ctx, a)) ==> result != nil && E == old(E) && X == old(X)
+//@ ensures [store] S == old(S)
+//@ ensures [who] E == old(E) || E == e1 || E == e2 || E == e3
+//@ ensures [success] result == nil ==> E == e3
+
+//@ func Keeper.HandleConsumerDoubleVoting
+//@ requires evidence != nil && evidence.VoteA != nil && evidence.VoteB != nil
+//@ let cl := old(k.GetConsumerClientId(ctx, consumerId))
+//@ let chain := old(k.GetConsumerChainId(ctx, consumerId))
+//@ let prm := old(k.GetInfractionParameters(ctx, consumerId))
+//@ let p := old(k.GetProviderAddrFromConsumerAddr(ctx, consumerId, types.NewConsumerConsAddress(evidence.VoteA.ValidatorAddress.Bytes())))
+//@ let a := p.ToSdkConsAddr()
+//@ requires [W-infraction-params] prm.1 == nil ==> prm.0.DoubleSign != nil && prm.0.Downtime != nil
+//@ ensures [no-client] !cl.1 ==> result != nil && E == old(E)
+//@ ensures [too-old] evidence.VoteA.Height < old(k.GetEquivocationEvidenceMinHeight(ctx, consumerId)) ==> result != nil && E == old(E)
+//@ ensures [no-chain] chain.1 != nil ==> result != nil && E == old(E)
+//@ ensures [invalid] chain.1 == nil && k.VerifyDoubleVotingEvidence(val(evidence), chain.0, pubkey) != nil ==> result != nil && E == old(E)
+//@ ensures [no-params] prm.1 != nil ==> result != nil && E == old(E)
+//@ ensures [store] S == old(S)
+//@ ensures [accepted] result == nil ==> cl.1 && chain.1 == nil && prm.1 == nil && k.VerifyDoubleVotingEvidence(val(evidence), chain.0, pubkey) == nil && E != old(E)
+
+//@ func Keeper.CheckMisbehaviour
+//@ requires misbehaviour.Header1 != nil && misbehaviour.Header2 != nil && misbehaviour.Header1.SignedHeader != nil && misbehaviour.Header1.SignedHeader.Header != nil
+//@ let chain := old(k.GetConsumerChainId(ctx, consumerId))
+//@ let cl := old(k.GetConsumerClientId(ctx, consumerId))
+//@ ensures [chain] result == nil ==> chain.1 == nil && chain.0 == misbehaviour.Header1.SignedHeader.Header.ChainID
+//@ ensures [client] result == nil ==> cl.1 && cl.0 == misbehaviour.ClientId
+//@ ensures [height] result == nil ==> misbehaviour.Header1.GetHeight().EQ(misbehaviour.Header2.GetHeight())
+//@ ensures [min-height] result == nil ==> misbehaviour.Header1.GetHeight().GetRevisionHeight() >= old(k.GetEquivocationEvidenceMinHeight(ctx, consumerId))
+//@ ensures [pure] S == old(S) && E == old(E)
